@@ -37,7 +37,7 @@
 (***************************************************************************)
 EXTENDS Integers, Sequences, FiniteSets, TLC, Json, LockPrograms
 
-CONSTANTS Threads,      \* set of thread ids (integers)
+CONSTANTS Threads,      \* set of thread ids (integers, or model values when SYMMETRY ThreadSym is used)
           MaxDepth,     \* bound on the call depth (deeper calls are skipped)
           MaxFresh,     \* bound on the number of nested fresh instances (a fork-out of a fork-out ...)
           Collect       \* TRUE: RacesLogged prints every distinct race (instead of NoDataRace stopping at the first)
@@ -121,7 +121,7 @@ RemoveOne(s, e) == LET i == CHOOSE j \in 1..Len(s) : s[j] = e
 
 ---------------------------------------------------------------------------
 Init == /\ st = [t \in Threads |-> "idle"]
-        /\ root = [t \in Threads |-> ""]
+        /\ root = [t \in Threads |-> [m |-> "", chain |-> <<>>]]
         /\ cont = [t \in Threads |-> <<>>]
         /\ held = [t \in Threads |-> <<>>]
         /\ waitW = {}
@@ -194,7 +194,7 @@ RaceWitnesses ==
             <<a, b>> \in {<<x, y>> \in AccessAt(t1) \X AccessAt(t2) :
                             /\ x.obj = y.obj /\ x.field = y.field
                             /\ (x.kind = "Wr" \/ y.kind = "Wr")}} :
-         <<t1, t2>> \in {<<u, v>> \in Threads \X Threads : u < v}}
+         <<t1, t2>> \in {<<u, v>> \in Threads \X Threads : u # v}}
 
 NoDataRace == \A w \in RaceWitnesses : PrintT(<<"RACE", w>>) /\ FALSE
 
@@ -213,6 +213,8 @@ NoLockLeak ==
   \A t \in Threads : st[t] = "done" => (held[t] = <<>> \/ (PrintT(<<"LOCKLEAK", root[t].m, held[t]>>) /\ FALSE))
 
 Termination == <>(\A t \in Threads : st[t] = "done")
+
+ThreadSym == Permutations(Threads)
 
 \* what the error trace shows (parsed by runner/locks.py)
 Pretty ==
